@@ -475,6 +475,7 @@ class Sym:
         return Sym(_ew(lambda s: s.nodual(), self.a))
 
     def detach_(self):
+        self.a[...] = _ew(lambda s: s.nodual(), self.a)
         return self
 
     def clone(self, *a, **k):
@@ -1848,4 +1849,18 @@ def conv2d(x, weight, bias=None, stride=1, padding=0, dilation=1, groups=1):
     for i in range(n):
         j = _taint_join(list(X[i].reshape(-1)))
         out[i].fill(j)
+    return Sym(out)
+
+
+@handles("layer_norm")
+def layer_norm(x, normalized_shape, weight=None, bias=None, eps=1e-5):
+    X = lift(x).a
+    if not (X.size and isinstance(X.reshape(-1)[0], TS)):
+        raise NotModelled("layer_norm on real-valued symbols")
+    nd = len(tuple(normalized_shape))
+    lead = X.shape[: X.ndim - nd]
+    out = np.empty(X.shape, dtype=object)
+    for idx in np.ndindex(lead):
+        j = _taint_join(list(X[idx].reshape(-1)))
+        out[idx].fill(j) if nd else None
     return Sym(out)
